@@ -148,6 +148,8 @@ def build_problem(spec):
                     if spec["max_K"] is not None:
                         kw["max_K"] = spec["max_K"] * u.Unit(spec.get("max_K_unit", "km/s"))
                     sk = spec["sigma_K0"]
+                    if spec.get("K_mu") is not None:  # a non-zero mean of the period- and eccentricity-dependent K prior (in sigma_K0's unit)
+                        kw["mu"] = float(spec["K_mu"])
                     pars["K"] = xu.with_unit(FixedCompanionMass("K", P=P, e=e, sigma_K0=sk[0] * u.Unit(sk[1]), P0=spec["P0"][0] * u.Unit(spec["P0"][1]), **kw), u.Unit(sk[1]))
                 else:
                     pars[p["name"]] = xu.with_unit(pm.Normal(p["name"], np.array(p["mu"], dtype="f8"), np.array(p["std"], dtype="f8")), un)
@@ -184,7 +186,7 @@ def closed_form(spec, all_data, trend_M, kcol):
         muK, sdK = conv(K)
         varK = sdK**2
     else:
-        muK = 0.0
+        muK = (float(spec.get("K_mu") or 0.0) * u.Unit(spec["sigma_K0"][1])).to_value(du)
         sk = (spec["sigma_K0"][0] * u.Unit(spec["sigma_K0"][1])).to_value(du)
         P0d = (spec["P0"][0] * u.Unit(spec["P0"][1])).to_value(u.day)
         mk = ((spec["max_K"] * u.Unit(spec.get("max_K_unit", "km/s"))) if spec["max_K"] is not None else 500.0 * u.km / u.s).to_value(du)
